@@ -35,6 +35,7 @@ def decodeLoop (p : Profile) (si : SInfo) (total : Nat) : Nat → List Nat → N
           | .error e => (acc.reverse, some e)
           | .ok () =>
             if !c8 then (acc.reverse, some (.err "Crc8Mismatch"))
+            else if Gen.decOvershootIsError && total ≥ cur && h.blockSize > total - cur then (acc.reverse, some (.err "TooManySamples"))
             else if !(h.blockSize == (if total ≥ cur then total - cur else 18446744073709551616 - (cur - total)) || h.blockSize > 14)
             then (acc.reverse, some (.err "ShortBlock"))
             else
@@ -43,7 +44,7 @@ def decodeLoop (p : Profile) (si : SInfo) (total : Nat) : Nat → List Nat → N
               | .ok d => decodeLoop p si total fuel (bytes.drop d.used) (cur + h.blockSize) (d.channels :: acc)
     else
       match parseHeaderBytes (some si) bytes with
-      | .error .eof => (acc.reverse, none)
+      | .error .eof => if bytes.isEmpty || !Gen.decHeaderEofStrict then (acc.reverse, none) else (acc.reverse, some .eof)
       | .error e => (acc.reverse, some e)
       | .ok _ =>
         match decodeFrame p (some si) bytes with
